@@ -7,6 +7,7 @@ mod exec;
 mod hints;
 mod masm;
 mod parse;
+mod pubin;
 mod pv;
 mod serde;
 mod trace;
@@ -38,6 +39,7 @@ fn run_family(family: &str, path: &str) {
             "mtree" => hints::run_mtree(&line),
             "pv" => pv::run_pv(&line),
             "pvweak" => pv::run_pvweak(&line),
+            "pubelems" => pubin::run_pubelems(&line),
             "smt" => coll::run_smt(&line),
             "mmr" => coll::run_mmr(&line),
             _ => panic!("unknown family {family}"),
